@@ -28,6 +28,22 @@ pub fn step_cap(solver: Solver, tol: f64, l: f64) -> f64 {
     let b = if solver.high_order() { 2.0 * tol.powf(0.2) } else { tol.powf(1.0 / 3.0) };
     b / l.max(1e-3)
 }
+/// The property asks for a maximum step "small enough that the terms the error estimator cannot see are themselves
+/// below the tolerance"; its formula assumes states of size O(1).  For a state of amplitude `amp` the first unseen
+/// term is made explicit and the step cap is lowered until it is at most 2 tol h (2 tol for BDF):
+/// RK4(5): (L h)^6 amp / 720; RK3(2): (L h)^4 amp / 24; Adams and BDF: their unchecked RK4 start-up steps,
+/// (L h)^5 amp / 120.
+pub fn unseen_cap(solver: Solver, tol: f64, l: f64, amp: f64) -> f64 {
+    let l = l.max(1e-3);
+    let amp = amp.max(1.0);
+    match solver {
+        Solver::RK45 => (2.0 * tol * 720.0 / amp).powf(0.2) / l.powf(1.2),
+        Solver::RK23 => (2.0 * tol * 24.0 / amp).powf(1.0 / 3.0) / l.powf(4.0 / 3.0),
+        Solver::Adams5 | Solver::Adams3 => (2.0 * tol * 120.0 / amp).powf(0.25) / l.powf(1.25),
+        Solver::BDF6 | Solver::BDF2 => (2.0 * tol * 120.0 / amp).powf(0.2) / l,
+        Solver::Euler => f64::INFINITY,
+    }
+}
 fn run_real(solver: Solver, prob: &Problem, cfg: &Cfg, mode: DimMode, budget: u64) -> RunOut<f64> {
     let pr = prob.clone();
     let rhs: Rhs<f64> = Rc::new(move |t, y| Ok(pr.f(t, y)));
@@ -58,7 +74,7 @@ impl Check for Local {
         "local-accuracy"
     }
     fn rule(&self) -> String {
-        "6 adaptive solvers x catalogue problems (closed-form flows, dimension 1-4) x tolerance x maximum step = c x cap(tol)/L x 2 initial states, t in [0.3, 0.3 + 2/L]; every consecutive pair of every path is judged against the exact flow restarted from the previous point; signature = (solver, tolerance decade, share of cap-limited steps class, end kind)".into()
+        "6 adaptive solvers x catalogue problems (closed-form flows, dimension 1-4) x tolerance x maximum step = min(c x cap(tol)/L, the step at which the first term the estimator cannot see equals 2 tol h for the amplitude of the solution) x initial states (amplitudes 0.6, 1, 60, 2000), t in [0.3, 0.3 + 2/L]; every consecutive pair of every path is judged against the exact flow restarted from the previous point; signature = (solver, tolerance decade, share of cap-limited steps class, end kind)".into()
     }
     fn axes(&self, t: Tier) -> Value {
         json!({"problems": t.pick(&PROBLEMS12[..][..6], &PROBLEMS12[..]), "tol": t.pick(vec![1e-3, 1e-5, 1e-7, 1e-9], vec![1e-3, 1e-4, 1e-5, 1e-6, 1e-7, 1e-8, 1e-9, 1e-10]), "c": [1.0, 0.5, 0.25], "u0_scale": [1.0, 0.6], "K": K})
@@ -88,6 +104,11 @@ impl Check for Local {
         }
         v
     }
+    fn required(&self, _t: Tier) -> Vec<&'static str> {
+        // the estimator-limited regime must be reached by every solver (otherwise the property's "the estimator, not
+        // the step cap, limits most steps" is not exercised)
+        vec!["rk45|&&cap-limited:<=50%|Done", "rk23|&&cap-limited:<=50%|Done", "adams5|&&cap-limited:<=50%|Done", "adams3|&&cap-limited:<=50%|Done", "bdf6|&&cap-limited:<=50%|Done", "bdf2|&&cap-limited:<=50%|Done"]
+    }
     fn run(&self, p: &LocalPt) -> Outcome {
         let mut o = Outcome::new();
         let prob = scaled(&problem(&p.problem), p.u0_scale);
@@ -95,7 +116,9 @@ impl Check for Local {
         let l = prob.lipschitz(t0, t0 + 2.0).max(0.5);
         let t1 = t0 + 2.0 / l;
         let l = prob.lipschitz(t0, t1).max(0.5);
-        let dtmax = p.c * step_cap(p.solver, p.tol, l);
+        // amplitude of the exact solution over the interval (sampled closed form)
+        let amp = (0..=64).map(|i| ninf(&prob.flow(t0, &prob.y0(), t0 + (t1 - t0) * i as f64 / 64.0))).fold(0.0, f64::max);
+        let dtmax = (p.c * step_cap(p.solver, p.tol, l)).min(unseen_cap(p.solver, p.tol, l, amp));
         let cfg = Cfg { tol: p.tol, dtmin: 1e-7 * dtmax, dtmax, t0, t1 };
         let out = run_real(p.solver, &prob, &cfg, DimMode::Static, 40_000_000);
         let subj = subject(p.solver);
@@ -182,6 +205,11 @@ impl Check for LocalCplx {
         }
         v
     }
+    fn required(&self, _t: Tier) -> Vec<&'static str> {
+        // the estimator-limited regime must be reached by every solver (otherwise the property's "the estimator, not
+        // the step cap, limits most steps" is not exercised)
+        vec!["rk45|&&cap-limited:<=50%|Done", "rk23|&&cap-limited:<=50%|Done", "adams5|&&cap-limited:<=50%|Done", "adams3|&&cap-limited:<=50%|Done", "bdf6|&&cap-limited:<=50%|Done", "bdf2|&&cap-limited:<=50%|Done"]
+    }
     fn run(&self, p: &LocalCplxPt) -> Outcome {
         let mut o = Outcome::new();
         let mut lams = vec![C64::new(p.lam.0, p.lam.1)];
@@ -193,7 +221,8 @@ impl Check for LocalCplx {
         }
         let l = lams.iter().map(|x| x.norm()).fold(0.5, f64::max);
         let (t0, t1) = (0.3, 0.3 + 2.0 / l);
-        let dtmax = step_cap(p.solver, p.tol, l);
+        let amp = p.amp * (lams.iter().map(|x| x.re).fold(0.0, f64::max) * (t1 - t0)).exp();
+        let dtmax = step_cap(p.solver, p.tol, l).min(unseen_cap(p.solver, p.tol, l, amp));
         let cfg = Cfg { tol: p.tol, dtmin: 1e-7 * dtmax, dtmax, t0, t1 };
         let lim = Limits { max_calls: 40_000_000, max_items: 4_000_000, extra_next: 0 };
         let lc = lams.clone();
